@@ -398,15 +398,21 @@ impl FileSpec {
             .filter(|path| {
                 // infix filter must pass
                 let stem = path.file_stem().unwrap(/* CANNOT FAIL*/).to_string_lossy();
-                let infix_start = if fixed_name_part.is_empty() {
-                    0
+                let maybe_infix = if fixed_name_part.is_empty() {
+                    &*stem
                 } else {
-                    fixed_name_part.len() + 1 // underscore at the end
+                    // the fixed name part must be followed by an underscore
+                    match stem
+                        .strip_prefix(fixed_name_part.as_str())
+                        .and_then(|rest| rest.strip_prefix('_'))
+                    {
+                        Some(rest) => rest,
+                        None => return false,
+                    }
                 };
-                if stem.len() <= infix_start {
+                if maybe_infix.is_empty() {
                     return false;
                 }
-                let maybe_infix = &stem[infix_start..];
                 let end = maybe_infix.find('.').unwrap_or(maybe_infix.len());
                 infix_filter.filter_infix(&maybe_infix[..end])
             })
